@@ -270,12 +270,13 @@ func init() {
 	addGo(mk[inPtr, *inner]("ptrout2", nil, nil))
 	addGo(mk[inBasic, outBasic]("openbasic", json.RawMessage(inBasicOpenSchema), nil))
 	addGo(shadowTool())
+	addGo(mk[any, outBasic]("anyin", nil, nil))
 	for n := range goTools {
 		goToolNames = append(goToolNames, n)
 	}
 	sort.Strings(goToolNames)
 	// The pairs whose outputs can violate their schema get more weight.
-	goToolWeighted = append(append([]string{}, goToolNames...), "dflt", "dflt", "anyfield", "ptrs", "ptrout2", "openbasic", "openbasic", "shadow", "shadow", "basic")
+	goToolWeighted = append(append([]string{}, goToolNames...), "dflt", "dflt", "anyfield", "ptrs", "ptrout2", "openbasic", "openbasic", "shadow", "shadow", "basic", "anyin", "anyin")
 }
 
 type pubSchemas struct {
